@@ -2,6 +2,7 @@ import Verif.Proofs.NumRoundLen
 import Verif.Proofs.NumHolds
 import Verif.Proofs.NumDecRound
 import Verif.Proofs.NumNumRound
+import Verif.Proofs.NumJson
 /-!
 # C08 — Number/Decimal shortening keeps the numeric value
 
@@ -10,39 +11,11 @@ Property theorems only.  Models: `Verif.Model.Num.number`, `Verif.Model.Num.deci
 -/
 namespace Verif.Props.C08
 open Verif.Model.Num Verif.Proofs.Num
-open Verif.Spec.Num (isNumber isDecimal numVal trigExpNear holds WithinHalfUnit)
+open Verif.Spec.Num (isNumber isDecimal numVal holds WithinHalfUnit WithinHalfUnitDec)
 
-/-- (a) at precision ≤ 0 the result of `Number` is never longer than its input — for every byte string -/
-theorem number_length_exact (s : List Char) (p : Int) (hp : p ≤ 0) : (number s p).length ≤ s.length :=
-  number_length_gen s p (fun m0 _ _ => by rw [rnd_nonpos hp]; exact Nat.le_refl _)
-
-/-- (a), full statement: `Number` never lengthens its input.  Proved below for precision ≤ 0 (every byte
-    string) and for every precision on lexemes outside the trigger of the known findings K-C08-1/2. -/
-def number_length_full : Prop := ∀ (s : List Char) (p : Int), (number s p).length ≤ s.length
-
-/-- (a) for every precision: a lexeme of the grammar whose exponent stays clear of the int64 range
-    (`¬ trigExpNear`, the guard of the known findings K-C08-1/2) is never lengthened -/
-theorem number_length_partial (s : List Char) (p : Int) (hs : isNumber s = true)
-    (hg : trigExpNear s p = false) : (number s p).length ≤ s.length := by
-  by_cases hp : p ≤ 0
-  · exact number_length_exact s p hp
-  · obtain ⟨l, hwf, rfl⟩ := exists_lex_of_isNumber hs
-    have hparse := parse_str l hwf
-    unfold trigExpNear at hg
-    rw [hparse] at hg
-    have hpp : decide (0 < p) = true := by simp; omega
-    simp only [hpp, Bool.true_and, decide_eq_false_iff_not] at hg
-    apply number_length_gen
-    intro m0 hme hml
-    rcases modelExp_str l hwf with h | h
-    · rw [h] at hme; cases hme
-    · rw [h] at hme
-      injection hme with hme
-      unfold rnd
-      rw [if_pos (by omega)]
-      exact roundP_len m0 p.toNat (by omega) (by rw [← hme]; omega)
-
-example : isNumber "123456.7e+25".toList = true ∧ trigExpNear "123456.7e+25".toList 2 = false := by decide
+/-- (a) the result of `Number` is never longer than its input — every byte string, every precision -/
+theorem number_length (s : List Char) (p : Int) : (number s p).length ≤ s.length :=
+  number_length_all s p
 
 /-- (b) at precision ≤ 0 `Number` returns a lexeme that denotes exactly the same rational -/
 theorem number_value (s : List Char) (p : Int) (hs : isNumber s = true) (hp : p ≤ 0) :
@@ -62,28 +35,17 @@ theorem number_grammar (s : List Char) (p : Int) (hs : isNumber s = true) : isNu
   · rw [h]; exact isNumber_str l hwf
   · rw [← h2]; exact isNumber_str l' h1
 
-/-- (d), full statement: with a precision `p > 0` the result of `Number` is within half a unit of the `p`-th
-    significant digit.  It fails on the implementation (and on the model, which reproduces the `int`
-    wrap-around) for the known finding K-C08-1; proved below outside the trigger of K-C08-1/2. -/
-def number_round_full : Prop :=
-  ∀ (s : List Char) (p : Int), isNumber s = true → 0 < p →
-    ∃ v w, numVal s = some v ∧ numVal (number s p) = some w ∧ WithinHalfUnit s p v w
-
 /-- (d) with a precision `p > 0` the result of `Number` is within half a unit of the `p`-th significant digit
-    of the input value, for lexemes whose exponent stays clear of the int64 range (`¬ trigExpNear`) -/
-theorem number_round_partial (s : List Char) (p : Int) (hs : isNumber s = true) (hp : 0 < p)
-    (hg : trigExpNear s p = false) :
+    of the input value (`WithinHalfUnit`: `|w − v| ≤ ½·10^(L−p+1)` where `10^L ≤ |v| < 10^(L+1)`); a lexeme whose
+    exponent is within `len+1` of the `int` range is returned unchanged -/
+theorem number_round (s : List Char) (p : Int) (hs : isNumber s = true) (hp : 0 < p) :
     ∃ v w, numVal s = some v ∧ numVal (number s p) = some w ∧ WithinHalfUnit s p v w := by
   obtain ⟨l, hwf, rfl⟩ := exists_lex_of_isNumber hs
-  have hparse := parse_str l hwf
-  unfold trigExpNear at hg
-  rw [hparse] at hg
-  have hpp : decide (0 < p) = true := by simp; omega
-  simp only [hpp, Bool.true_and, decide_eq_false_iff_not] at hg
-  obtain ⟨w, h1, h2⟩ := number_round_lex l hwf p hp (by omega)
+  obtain ⟨w, h1, h2⟩ := number_round_lex l hwf p hp
   exact ⟨l.val, w, numVal_str l hwf, h1, h2⟩
 
-example : isNumber "-0012.3456e+7".toList = true ∧ trigExpNear "-0012.3456e+7".toList 3 = false := by decide
+example : isNumber "-0012.3456e+7".toList = true ∧ (0 : Int) < 3 := by decide
+example : number "123456.7e9223372036854775807".toList 2 = "123456.7e9223372036854775807".toList := by decide
 
 /-- (e) output shape: for a lexeme that does not start with `+` the first byte of the result of `Number`
     is a digit, `.` or `-` (a lexeme with `+` can come back unchanged when its exponent is not an int64) -/
@@ -126,10 +88,11 @@ theorem decimal_grammar (s : List Char) (p : Int) (hs : isDecimal s = true) :
   · rw [← h3]; exact isDecimal_str l' h1 h2
 
 /-- (d) with a precision `p > 0` the result of `Decimal` is within half a unit of the `p`-th significant
-    digit of the input value (`WithinHalfUnit`: `|w − v| ≤ ½·10^(L−p+1)` where `10^L ≤ |v| < 10^(L+1)`;
+    digit of the input value and never further than half a unit of the units place
+    (`WithinHalfUnitDec`: `|w − v| ≤ ½·10^(min (L−p+1) 0)` where `10^L ≤ |v| < 10^(L+1)`;
     only fraction digits are dropped, so a long integer part is returned exactly) -/
 theorem decimal_round (s : List Char) (p : Int) (hs : isDecimal s = true) (hp : 0 < p) :
-    ∃ v w, numVal s = some v ∧ numVal (decimal s p) = some w ∧ WithinHalfUnit s p v w := by
+    ∃ v w, numVal s = some v ∧ numVal (decimal s p) = some w ∧ WithinHalfUnitDec s p v w := by
   obtain ⟨l, hwf, rfl, hex⟩ := exists_lex_of_isDecimal hs
   obtain ⟨w, h1, h2⟩ := decimal_round_lex l hwf hex p hp
   exact ⟨l.val, w, numVal_str l hwf, h1, h2⟩
@@ -148,5 +111,20 @@ theorem holds_sound (decimalMode : Bool) (s : List Char) (p : Int) (out : List C
   holds_exact_sound decimalMode s p out h hp
 
 example : holds false "+012.500e-3".toList 0 ".0125".toList = true := by decide
+-- the checker rejects a `Decimal` result that lost its fraction although the integer part is longer than the precision
+example : holds true "12.9".toList 1 "12".toList = false ∧ holds true "12.9".toList 1 "12.9".toList = true ∧
+    holds true "2.9".toList 1 "3".toList = true ∧ holds false "12.9".toList 1 "10".toList = true := by decide
+
+/-- bridge to C07: the model of `minify.Number` satisfies the three hypotheses that the model of the JSON
+    minifier (`Verif.Model.Json`) makes about it, stated with the JSON side's own recognisers and value function:
+    on RFC 8259 number lexemes the result is in the minifier's number grammar and not longer (`NumGrammar`), a
+    result that starts with `.`/`-.` for a lexeme without exponent is strictly shorter (`NumDotShrinks`) — both
+    for every precision — and at precision ≤ 0 the value is unchanged (`NumValue`) -/
+theorem number_json_hypotheses (p : Int) :
+    Verif.Model.Json.NumGrammar number p ∧ Verif.Model.Json.NumDotShrinks number p ∧
+      (p ≤ 0 → Verif.Model.Json.NumValue number p) :=
+  ⟨number_numGrammar p, number_numDotShrinks p, number_numValue p⟩
+
+example : Verif.Spec.Json.isJsonNumber "-0.50e+3".toList = true := by decide
 
 end Verif.Props.C08
